@@ -63,9 +63,35 @@ def _h(a):
     return hashlib.sha1(a.tobytes() + str(a.shape).encode()).hexdigest()[:12]
 
 
+_DEFAULTS0 = {}
+
+
+def _restore_mutable_defaults():
+    """Mutable default arguments (e.g. ``degrees=[50]``) are module-level state too: their pristine content is recorded the
+    first time and restored on every reset, so that one history cannot influence the next one in the same worker."""
+    import copy
+
+    from grid.atomgrid import AtomGrid
+
+    for fn in (AtomGrid.__init__,):
+        for k, d in enumerate(fn.__defaults__ or ()):
+            if isinstance(d, (list, dict)):
+                key = (fn.__qualname__, k)
+                if key not in _DEFAULTS0:
+                    _DEFAULTS0[key] = copy.deepcopy(d)
+                elif d != _DEFAULTS0[key]:
+                    if isinstance(d, list):
+                        d[:] = copy.deepcopy(_DEFAULTS0[key])
+                    else:
+                        d.clear()
+                        d.update(copy.deepcopy(_DEFAULTS0[key]))
+
+
 def reset_library():
     import grid.angular as ang
     import grid.coulomb as cou
+
+    _restore_mutable_defaults()
 
     # every module-level dictionary whose name says it is a cache (robust to caches being added, merged or renamed)
     for name, val in list(vars(ang).items()):
@@ -166,7 +192,16 @@ class WorldA:
                 for dg in self.degrees:
                     for cache in (True, False):
                         evs.append(("A", sl, mth, dg, cache, "degree"))
-        evs.append(("A", "a", self.methods[0], self.degrees[0], True, "size"))
+        for mth in self.methods:
+            for dg in self.degrees:
+                evs.append(("A", "a", mth, dg, True, "size"))
+        # requests that lean on argument defaults or give degree and size together, and atomic grids built with every
+        # default (a one-shell radial grid first): whatever the rule for them is, the answer must be that of a fresh
+        # process (seeded changes C19-I / C19-J: a cache fast path for the default degree, a polluted mutable default)
+        if self.extra:      # (explored for the lebedev / maxdet pair: the default degree is a table entry of maxdet)
+            for mth in self.methods:
+                evs += [("AB", mth), ("Adef", mth), ("AtomDef", mth)]
+            evs.append(("AtomDef1",))
         for sl in ("a", "b", "s", "g", "m"):
             if sl in self.slots:
                 evs.append(("EditP", sl))
@@ -207,6 +242,15 @@ class WorldA:
                 obs = (_h(g.points), _h(g.weights), int(g.degree))
                 if len(g.points) != len(shipped(mth, dg)[0]):
                     self._bad(f"A:ctor:{mth}:wrong-grid", f"{ev} built a grid of {len(g.points)} points")
+            elif kind in ("AB", "Adef", "AtomDef", "AtomDef1"):
+                self.sized.add(kind if kind == "AtomDef1" else (kind, ev[1]))
+                g = _special_build(self, ev)
+                rp, rw = self._refs[tuple(ev)]
+                obs = (_h(g.points), _h(g.weights))
+                if np.shape(g.points) != np.shape(rp) or not (np.array_equal(g.points, rp) and np.array_equal(g.weights, rw)):
+                    self._bad(f"A:{kind}:{ev[1] if len(ev) > 1 else 'defaults'}:differs-from-fresh-world",
+                              f"{ev}: the grid built after this history ({len(g.weights)} points) differs from the one a fresh process "
+                              f"builds for the same call ({len(rw)} points)")
             elif kind == "EditP":
                 obj = self.slots[ev[1]]
                 arr = obj.points
@@ -356,7 +400,7 @@ class WorldA:
                                 bool(np.shape(cw) == np.shape(rw) and np.allclose(cw, rw, rtol=1e-15, atol=0))))
                 else:
                     key.append((mth, dg, False, True, True))
-        key.append(("sized", tuple(sorted(self.sized))))
+        key.append(("sized", tuple(sorted(map(repr, self.sized)))))
         for sl in ("a", "b", "g", "s", "m"):
             if sl not in self.slots:
                 key.append((sl, None))
@@ -377,6 +421,24 @@ class WorldA:
                                   bool(np.shares_memory(obj.weights, o.weights))))
             key.append((sl, md["cfg"], md["editP"], md["editW"], tuple(alias)))
         return tuple(key)
+
+
+def _special_build(world, ev):
+    from grid.angular import AngularGrid
+    from grid.atomgrid import AtomGrid
+    from grid.basegrid import OneDGrid
+
+    kind = ev[0]
+    with warnings.catch_warnings():
+        warnings.simplefilter("ignore")
+        if kind == "AB":
+            other = len(shipped(ev[1], world.degrees[1])[0])
+            return AngularGrid(degree=world.degrees[0], size=other, method=ev[1])
+        if kind == "Adef":
+            return AngularGrid(method=ev[1])
+        if kind == "AtomDef":
+            return AtomGrid(world._rgrid(), method=ev[1])
+        return AtomGrid(OneDGrid(np.array([0.8]), np.array([0.5]), (0, np.inf)))
 
 
 def _build_mol(world, method):
@@ -426,6 +488,13 @@ def _references(methods, degrees):
         reset_library()
         m = _build_mol(w, mth)
         refs[("mol", mth)] = (m.points.copy(), m.weights.copy())
+        for kind in ("AB", "Adef", "AtomDef"):
+            reset_library()
+            g = _special_build(w, (kind, mth))
+            refs[(kind, mth)] = (np.array(g.points), np.array(g.weights))
+    reset_library()
+    g = _special_build(w, ("AtomDef1",))
+    refs[("AtomDef1",)] = (np.array(g.points), np.array(g.weights))
     reset_library()
     _REFS[key] = refs
     return refs
